@@ -36,6 +36,15 @@ CLAIMED['C11'] = dict(
    note=NOTE + "; LatexContextDb.test_for_specials/get_specials_spec and the environment-name regular expression "
         "enter as assumed interface contracts (A-LIB); LatexTokenListTokenReader is not covered")
 
+CLAIMED['C19'] = dict(
+   text="Unbounded proof with a ghost trace (z3 sequence of visit events) that, for every node class, "
+        "accept_node_visitor dispatches exactly once to its own node_standard_process_*, which visits the children "
+        "subtrees first (arguments before body, list order, None skipped), then calls the class's callback exactly once "
+        "with the children's results in that order (None placeholders kept), for node lists and argument lists of "
+        "any length (loop invariant over the real descend loop). Children enter through the interface contract "
+        "trace' = trace ++ PO(child); the structural induction over the tree is stated, not mechanised.",
+   ref="DESIGN.md section 5, C19")
+
 NA = {
 }
 DEFAULT_NA = "check not built yet (work in progress; see DESIGN.md section 5 for the planned contracts)"
